@@ -174,7 +174,6 @@ class Explorer:
         r_edge = (ev >> 1) & 1 if not self.sync else 1
         push = w_edge and w_en and obs["w_rdy"]
         pop = r_edge and r_en and obs["r_rdy"]
-        self.pulse(ctx, ev)
         q2 = q
         if pop:
             q2 = q2[1:]
@@ -184,6 +183,14 @@ class Explorer:
                 raise Viol("write-accepted-when-full", held=len(q), depth=self.depth)
             q2 = q2 + ((w_data, 0),)
             self.stats["pushes"] += 1
+        # right after the active edge(s) everything has settled: the outputs already describe q2
+        ctx.set(self.clkcat, ev)
+        try:
+            mon.check_outputs(q2, self.observe(ctx))
+        except Viol as v:
+            v.detail["when"] = "right after the rising edge, before the clock falls"
+            raise
+        ctx.set(self.clkcat, 0)
         post = self.observe(ctx)
         mon.check_outputs(q2, post)
         if self.sync:
